@@ -448,13 +448,83 @@ Proof.
     replace (j - k) with (S (j - S k)) by lia. exact Hn.
 Qed.
 
-Theorem pairk_ref_row ref block R Q : block <> [] -> ~ In 45%N ref -> Forall (fun c => (42 <= c)%N) ref ->
-  block_to_seq_pair ref block = Some (R, Q) ->
-  R = grow ref (Iof (block_insertions block)) (length ref) /\ length Q = length R.
+(* ---------- the query row seen through the reference row: drop the columns where the reference row has '-' ---------- *)
+Definition proj (R Q : list N) : list N := map snd (filter (fun rq : N * N => negb (fst rq =? 45)%N) (combine R Q)).
+Lemma combine_app {A B} (a1 a2 : list A) (b1 b2 : list B) : length a1 = length b1 ->
+  combine (a1 ++ a2) (b1 ++ b2) = combine a1 b1 ++ combine a2 b2.
 Proof.
-  intros Hne Hng Hge H. unfold block_to_seq_pair in H.
+  revert b1. induction a1 as [|x t IH]; intros [|y u] H; try discriminate; [reflexivity|]. cbn [app combine]. f_equal. apply IH. cbn in H. lia.
+Qed.
+Lemma proj_app R1 R2 Q1 Q2 : length R1 = length Q1 -> proj (R1 ++ R2) (Q1 ++ Q2) = proj R1 Q1 ++ proj R2 Q2.
+Proof. intros H. unfold proj. rewrite combine_app by exact H. rewrite filter_app, map_app. reflexivity. Qed.
+Lemma proj_gaps l X : proj (repeat 45%N l) X = [].
+Proof. unfold proj. revert X. induction l as [|l IH]; intros [|x X]; cbn; try reflexivity. apply IH. Qed.
+Lemma proj_nogap R : forall Q, ~ In 45%N R -> length Q = length R -> proj R Q = Q.
+Proof.
+  induction R as [|c t IH]; intros [|x Q] Hn Hl; try discriminate; [reflexivity|]. unfold proj in *. cbn [combine filter fst].
+  destruct (N.eqb_spec c 45) as [->|]; [exfalso; apply Hn; left; reflexivity|]. cbn [negb map snd]. f_equal.
+  apply IH; [intros Hin; apply Hn; right; exact Hin|cbn in Hl; lia].
+Qed.
+Lemma proj_length R : forall Q, length Q = length R -> length (proj R Q) = length (degap R).
+Proof.
+  induction R as [|c t IH]; intros [|x Q] Hl; try discriminate; [reflexivity|]. unfold proj, degap in *. cbn [combine filter fst].
+  destruct (negb (c =? 45)%N); cbn [map length]; rewrite IH by (cbn in Hl; lia); reflexivity.
+Qed.
+Lemma proj_map f R : forall Q, proj R (map f Q) = map f (proj R Q).
+Proof.
+  induction R as [|c t IH]; intros [|x Q]; try reflexivity. unfold proj in *. cbn [map combine filter fst].
+  destruct (negb (c =? 45)%N); cbn [map snd]; rewrite IH; reflexivity.
+Qed.
+Lemma regap_row_proj s l r q : length q = length r ->
+  proj (fst (regap_row s l (r, q))) (snd (regap_row s l (r, q))) = proj r q /\
+  length (snd (regap_row s l (r, q))) = length (fst (regap_row s l (r, q))).
+Proof.
+  intros Hl. unfold regap_row. destruct (find_col r s 0 0) as [col refb]. destruct (refb <? s); cbn [fst snd]; [split; [reflexivity|exact Hl]|].
+  split.
+  - rewrite proj_app by (rewrite !firstn_length; lia). rewrite proj_app by (rewrite !repeat_length; reflexivity). rewrite proj_gaps. cbn [app].
+    rewrite <- proj_app by (rewrite !firstn_length; lia). rewrite !firstn_skipn. reflexivity.
+  - rewrite !app_length, !repeat_length, !firstn_length, !skipn_length. lia.
+Qed.
+Lemma regap_proj INS : forall rows,
+  (forall j, length (snd (nth j rows dpair)) = length (fst (nth j rows dpair))) ->
+  forall j, proj (fst (nth j (regap rows INS) dpair)) (snd (nth j (regap rows INS) dpair)) = proj (fst (nth j rows dpair)) (snd (nth j rows dpair)).
+Proof.
+  induction INS as [|[[s l] row] t IH]; intros rows Hl j; [reflexivity|]. unfold regap. cbn [fold_left].
+  set (rows' := mapi_from (fun (j0 : nat) (rq : list N * list N) => if j0 =? row then rq else regap_row s l rq) 0 rows).
+  change (proj (fst (nth j (regap rows' t) dpair)) (snd (nth j (regap rows' t) dpair)) = proj (fst (nth j rows dpair)) (snd (nth j rows dpair))).
+  assert (Hnth : forall k, nth k rows' dpair = if k <? length rows then (if k =? row then nth k rows dpair else regap_row s l (nth k rows dpair)) else dpair).
+  { intros k. destruct (Nat.ltb_spec k (length rows)).
+    - unfold rows'. rewrite (mapi_from_nth _ rows 0 k dpair dpair) by lia. reflexivity.
+    - apply nth_overflow. unfold rows'. rewrite mapi_from_length. lia. }
+  assert (Hl' : forall k, length (snd (nth k rows' dpair)) = length (fst (nth k rows' dpair))).
+  { intros k. rewrite Hnth. destruct (k <? length rows); [|reflexivity]. destruct (k =? row); [apply Hl|].
+    destruct (nth k rows dpair) as [r q] eqn:E. pose proof (Hl k) as Hk. rewrite E in Hk. cbn [fst snd] in Hk. apply (regap_row_proj s l r q Hk). }
+  rewrite (IH rows' Hl' j). rewrite Hnth. destruct (Nat.ltb_spec j (length rows)); [|rewrite (nth_overflow rows) by lia; reflexivity].
+  destruct (j =? row); [reflexivity|]. destruct (nth j rows dpair) as [r q] eqn:E. pose proof (Hl j) as Hk. rewrite E in Hk. cbn [fst snd] in Hk.
+  apply (regap_row_proj s l r q Hk).
+Qed.
+
+Lemma pairk_struct ref rc0 rest R Q : ~ In 45%N ref -> Forall (fun c => (42 <= c)%N) ref ->
+  block_to_seq_pair ref (rc0 :: rest) = Some (R, Q) ->
+  exists pairs rows js mx,
+    map (fun rc => one_line_plus_ref true rc ref) (rc0 :: rest) = map Some pairs /\
+    length rows = length (rc0 :: rest) /\
+    (forall j, j < length (rc0 :: rest) ->
+       fst (nth j rows dpair) = grow ref (Iof (block_insertions (rc0 :: rest))) (rec_E (nth j (rc0 :: rest) rc0)) /\
+       length (snd (nth j rows dpair)) = length (fst (nth j rows dpair)) /\
+       proj (fst (nth j rows dpair)) (snd (nth j rows dpair)) = proj (snd (nth j pairs dpair)) (fst (nth j pairs dpair)) /\
+       rec_E (nth j (rc0 :: rest) rc0) <= rec_E (nth js (rc0 :: rest) rc0)) /\
+    js < length (rc0 :: rest) /\ rec_E (nth js (rc0 :: rest) rc0) <= length ref /\
+    R = grow ref (Iof (block_insertions (rc0 :: rest))) (rec_E (nth js (rc0 :: rest) rc0)) ++ skipn (rec_E (nth js (rc0 :: rest) rc0)) ref /\
+    mx = length (grow ref (Iof (block_insertions (rc0 :: rest))) (rec_E (nth js (rc0 :: rest) rc0))) /\
+    Q = swap_pad (flatten_block (map (fun rq : list N * list N => pad_to mx (snd rq)) rows)
+                  ++ repeat 42%N (length ref - rec_E (nth js (rc0 :: rest) rc0))) /\
+    (forall e, In e (block_insertions (rc0 :: rest)) -> fst (fst e) <= rec_E (nth js (rc0 :: rest) rc0)) /\
+    length (flatten_block (map (fun rq : list N * list N => pad_to mx (snd rq)) rows)) = mx.
+Proof.
+  intros Hng Hge H. unfold block_to_seq_pair in H. remember (rc0 :: rest) as block eqn:Eb.
   destruct (all_some (map (fun rc => one_line_plus_ref true rc ref) block)) as [pairs|] eqn:Ea; [|discriminate].
-  apply all_some_spec in Ea. destruct block as [|rc0 rest] eqn:Eb; [contradiction|]. rewrite <- Eb in *. clear Hne.
+  apply all_some_spec in Ea.
   set (n := length block). set (BI := block_insertions block) in *. set (Itot := Iof BI).
   destruct (map_eq_nth (fun rc => one_line_plus_ref true rc ref) (@Some (list N * list N)) block pairs rc0 dpair Ea) as [Hpl Hrec].
   fold n in Hpl, Hrec.
@@ -532,13 +602,36 @@ Proof.
   assert (Hflen : length (grow ref Itot (length ref)) = length ref + tot BI).
   { apply grow_full_length. intros e He. specialize (Hstarts e He). lia. }
   rewrite Hfull, app_length, skipn_length, Hmx in Hflen.
+  assert (Hproj : forall j, j < n -> proj (fst (nth j rows dpair)) (snd (nth j rows dpair)) = proj (snd (nth j pairs dpair)) (fst (nth j pairs dpair))).
+  { intros j Hj. unfold rows. rewrite regap_proj.
+    - change dpair with ((fun p : list N * list N => (snd p, fst p)) dpair) at 1 2. rewrite map_nth. reflexivity.
+    - intros k. destruct (Nat.lt_ge_cases k n) as [Hk|Hk]; [apply (proj2 H0 k Hk)|].
+      rewrite nth_overflow by (rewrite map_length; lia). reflexivity. }
+  exists pairs, rows, js, mx. split; [exact Ea|]. split; [exact Hrl|]. split.
+  { intros j Hj. destruct (Hrow j Hj) as [G1 G2]. split; [exact G1|]. split; [exact G2|]. split; [apply Hproj, Hj|apply HEjs, Hj]. }
+  split; [exact Hjs|]. split; [exact HEjsr|].
   rewrite Hmx in H. destruct (Nat.ltb_spec mx (tot BI + length ref)) as [Hlt|Hge'].
   - destruct (Nat.ltb_spec (length ref) (tot BI + length ref - mx)); [discriminate|]. injection H as <- <-.
-    replace (length ref - (tot BI + length ref - mx)) with (E js) by lia. split; [symmetry; exact Hfull|].
-    unfold swap_pad. rewrite map_length, !app_length, repeat_length, skipn_length, HQ, Hmx. lia.
-  - injection H as <- <-. assert (E js = length ref) by lia. split.
-    + rewrite Hfull. rewrite H, skipn_all, app_nil_r. reflexivity.
-    + unfold swap_pad. rewrite map_length, HQ, Hmx. reflexivity.
+    replace (length ref - (tot BI + length ref - mx)) with (E js) by lia. replace (tot BI + length ref - mx) with (length ref - E js) by lia.
+    split; [reflexivity|]. split; [symmetry; exact Hmx|]. split; [reflexivity|]. split; [exact Hstarts|exact HQ].
+  - injection H as <- <-. assert (HEq : E js = length ref) by lia. change (rec_E (nth js block rc0)) with (E js).
+    split; [fold Rmax; rewrite HEq, skipn_all, app_nil_r; reflexivity|].
+    split; [symmetry; exact Hmx|].
+    split; [rewrite HEq, Nat.sub_diag; cbn [repeat]; rewrite app_nil_r; reflexivity|].
+    split; [exact Hstarts|exact HQ].
+Qed.
+
+Theorem pairk_ref_row ref block R Q : block <> [] -> ~ In 45%N ref -> Forall (fun c => (42 <= c)%N) ref ->
+  block_to_seq_pair ref block = Some (R, Q) ->
+  R = grow ref (Iof (block_insertions block)) (length ref) /\ length Q = length R.
+Proof.
+  intros Hne Hng Hge H. destruct block as [|rc0 rest]; [contradiction|].
+  destruct (pairk_struct ref rc0 rest R Q Hng Hge H) as (pairs & rows & js & mx & _ & _ & _ & Hjs & HEr & -> & Hmx & -> & Hst & HQl).
+  set (Ej := rec_E (nth js (rc0 :: rest) rc0)) in *. set (Itot := Iof (block_insertions (rc0 :: rest))) in *. split.
+  - replace (length ref) with (Ej + (length ref - Ej)) at 1 by lia. rewrite grow_app. f_equal.
+    rewrite zero_tail; [|intros x Hx; apply Iof_zero; intros e He; specialize (Hst e He); lia|lia].
+    rewrite <- (skipn_length Ej ref). symmetry. apply firstn_all.
+  - unfold swap_pad. rewrite map_length, !app_length, repeat_length, skipn_length, HQl, Hmx. reflexivity.
 Qed.
 
 (* what the canonical row says in the statement's words *)
@@ -647,4 +740,232 @@ Proof.
   - destruct block; [contradiction|discriminate].
   - cbn [map flatten_rows]. apply flatten_block_single.
   - unfold flatten_block, flatten_rows. cbn [map]. inversion Hlen as [|? ? Hl0 _]; subst. cbn [map] in Hl0. rewrite Hl0. reflexivity.
+Qed.
+
+(* ================= the query row through the reference row = the toMultiAlign --pad row ================= *)
+Lemma walk2_proj ops : forall q r sq ref x y, ~ In 45%N ref -> walk2 true ops q r sq ref = Some (x, y) ->
+  exists x' y', walk2 false ops q r sq ref = Some (x', y') /\ proj y x = x'.
+Proof.
+  induction ops as [|[o len] t IH]; intros q r sq ref x y Hng H; cbn [walk2] in *.
+  - injection H as <- <-. exists [], []. split; reflexivity.
+  - assert (NG : forall b, slice ref r len = Some b -> ~ In 45%N b) by (intros b Hb Hin; apply Hng; eapply slice_sub; eauto).
+    destruct o.
+    + destruct (slice sq q len) as [a|] eqn:Ea; [|discriminate]. destruct (slice ref r len) as [b|] eqn:Eb; [|discriminate].
+      destruct (walk2 true t (q + len) (r + len) sq ref) as [[x1 y1]|] eqn:Ew; [|discriminate]. injection H as <- <-.
+      destruct (IH _ _ _ _ _ _ Hng Ew) as (x' & y' & -> & <-). eexists _, _. split; [reflexivity|].
+      rewrite proj_app by (rewrite (slice_length _ _ _ _ Ea), (slice_length _ _ _ _ Eb); reflexivity).
+      rewrite proj_nogap by (try apply NG; try reflexivity; rewrite (slice_length _ _ _ _ Ea), (slice_length _ _ _ _ Eb); reflexivity). reflexivity.
+    + destruct (slice sq q len) as [a|] eqn:Ea; [|discriminate].
+      destruct (walk2 true t (q + len) r sq ref) as [[x1 y1]|] eqn:Ew; [|discriminate]. injection H as <- <-.
+      destruct (IH _ _ _ _ _ _ Hng Ew) as (x' & y' & -> & <-). eexists _, _. split; [reflexivity|].
+      rewrite proj_app by (rewrite repeat_length, (slice_length _ _ _ _ Ea); reflexivity). rewrite proj_gaps. reflexivity.
+    + destruct (slice ref r len) as [b|] eqn:Eb; [|discriminate].
+      destruct (walk2 true t q (r + len) sq ref) as [[x1 y1]|] eqn:Ew; [|discriminate]. injection H as <- <-.
+      destruct (IH _ _ _ _ _ _ Hng Ew) as (x' & y' & -> & <-). eexists _, _. split; [reflexivity|].
+      rewrite proj_app by (rewrite repeat_length, (slice_length _ _ _ _ Eb); reflexivity).
+      rewrite proj_nogap by (try apply NG; try reflexivity; rewrite repeat_length, (slice_length _ _ _ _ Eb); reflexivity). reflexivity.
+    + destruct (slice ref r len) as [b|] eqn:Eb; [|discriminate].
+      destruct (walk2 true t q (r + len) sq ref) as [[x1 y1]|] eqn:Ew; [|discriminate]. injection H as <- <-.
+      destruct (IH _ _ _ _ _ _ Hng Ew) as (x' & y' & -> & <-). eexists _, _. split; [reflexivity|].
+      rewrite proj_app by (rewrite repeat_length, (slice_length _ _ _ _ Eb); reflexivity).
+      rewrite proj_nogap by (try apply NG; try reflexivity; rewrite repeat_length, (slice_length _ _ _ _ Eb); reflexivity). reflexivity.
+    + apply (IH _ _ _ _ _ _ Hng H).
+    + apply (IH _ _ _ _ _ _ Hng H).
+    + apply (IH _ _ _ _ _ _ Hng H).
+    + destruct (slice sq q len) as [a|] eqn:Ea; [|discriminate]. destruct (slice ref r len) as [b|] eqn:Eb; [|discriminate].
+      destruct (walk2 true t (q + len) (r + len) sq ref) as [[x1 y1]|] eqn:Ew; [|discriminate]. injection H as <- <-.
+      destruct (IH _ _ _ _ _ _ Hng Ew) as (x' & y' & -> & <-). eexists _, _. split; [reflexivity|].
+      rewrite proj_app by (rewrite (slice_length _ _ _ _ Ea), (slice_length _ _ _ _ Eb); reflexivity).
+      rewrite proj_nogap by (try apply NG; try reflexivity; rewrite (slice_length _ _ _ _ Ea), (slice_length _ _ _ _ Eb); reflexivity). reflexivity.
+    + destruct (slice sq q len) as [a|] eqn:Ea; [|discriminate]. destruct (slice ref r len) as [b|] eqn:Eb; [|discriminate].
+      destruct (walk2 true t (q + len) (r + len) sq ref) as [[x1 y1]|] eqn:Ew; [|discriminate]. injection H as <- <-.
+      destruct (IH _ _ _ _ _ _ Hng Ew) as (x' & y' & -> & <-). eexists _, _. split; [reflexivity|].
+      rewrite proj_app by (rewrite (slice_length _ _ _ _ Ea), (slice_length _ _ _ _ Eb); reflexivity).
+      rewrite proj_nogap by (try apply NG; try reflexivity; rewrite (slice_length _ _ _ _ Ea), (slice_length _ _ _ _ Eb); reflexivity). reflexivity.
+Qed.
+
+(* one record: the query row through its reference row is the toMultiAlign cell row up to the record's end *)
+Lemma one_line_true_proj rc ref qrow rrow : ~ In 45%N ref -> one_line_plus_ref true rc ref = Some (qrow, rrow) ->
+  exists row, walk (s_cigar rc) 0 (s_seq rc) = Some row /\
+              proj rrow qrow = map cell_byte (repeat Star (s_pos rc) ++ row) /\ s_pos rc + length row = rec_E rc.
+Proof.
+  intros Hng H. destruct (one_line_plus_ref_rows rc ref qrow rrow Hng H) as [Hlen Hd].
+  unfold one_line_plus_ref in H. destruct (Nat.ltb_spec (length ref) (s_pos rc)); [discriminate|].
+  destruct (walk2 true (s_cigar rc) 0 (s_pos rc) (s_seq rc) ref) as [[x y]|] eqn:Ew; [|discriminate]. injection H as <- <-.
+  destruct (walk2_proj _ _ _ _ _ _ _ Hng Ew) as (x' & y' & Ef & Hp). destruct (walk2_false_walk _ _ _ _ _ _ _ Ef) as (row & Hw & ->).
+  exists row. split; [exact Hw|].
+  assert (P : proj (firstn (s_pos rc) ref ++ y) (repeat 42%N (s_pos rc) ++ x) = map cell_byte (repeat Star (s_pos rc) ++ row)).
+  { rewrite proj_app by (rewrite firstn_length, repeat_length; lia). rewrite Hp, map_app, map_repeat'.
+    rewrite proj_nogap; [reflexivity| |rewrite firstn_length, repeat_length; lia]. intros Hin. apply Hng. eapply firstn_In_sub; eauto. }
+  split; [exact P|].
+  pose proof (proj_length (firstn (s_pos rc) ref ++ y) (repeat 42%N (s_pos rc) ++ x) Hlen) as L. rewrite P, Hd, map_length, app_length, repeat_length in L.
+  rewrite firstn_length in L. destruct (walk2_grow 0 _ _ _ _ _ _ _ Hng ltac:(eassumption) Ew) as [_ HE]. unfold rec_E. lia.
+Qed.
+
+Definition colof (g0 : nat) (segs : list seg) (k : nat) : nat := g0 + length (flat_segs (firstn k segs)).
+Lemma colof_lt g0 segs k : k < length segs -> colof g0 segs k < length (flat g0 segs).
+Proof.
+  intros Hk. unfold colof. rewrite flat_length. rewrite <- (firstn_skipn k segs) at 2. rewrite flat_segs_app, app_length.
+  pose proof (flat_segs_length_ge (skipn k segs)) as G. rewrite skipn_length in G. lia.
+Qed.
+Lemma colof_firstn g0 segs m k : k <= m -> colof g0 (firstn m segs) k = colof g0 segs k.
+Proof. intros H. unfold colof. rewrite firstn_firstn, Nat.min_l by exact H. reflexivity. Qed.
+Lemma proj_flat_cols g0 segs : wf_segs segs -> forall Q', length Q' = length (flat g0 segs) ->
+  proj (flat g0 segs) Q' = map (fun k => nth (colof g0 segs k) Q' 0%N) (seq 0 (length segs)).
+Proof.
+  induction segs as [|sg segs IH] using rev_ind; intros Hwf Q' Hl.
+  - unfold flat. cbn [flat_segs map concat app length seq]. rewrite app_nil_r. apply proj_gaps.
+  - apply Forall_app in Hwf. destruct Hwf as [Hwf Hc]. inversion Hc as [|? ? Hc' _]; subst.
+    assert (EF : flat g0 (segs ++ [sg]) = flat g0 segs ++ fst sg :: repeat 45%N (snd sg)).
+    { unfold flat. rewrite flat_segs_app, app_assoc. f_equal. cbn [flat_segs map concat]. rewrite app_nil_r. reflexivity. }
+    set (L := length (flat g0 segs)). rewrite EF in Hl |- *. rewrite app_length in Hl. cbn [length] in Hl. rewrite repeat_length in Hl. fold L in Hl.
+    rewrite <- (firstn_skipn L Q'). assert (HL1 : length (firstn L Q') = L) by (rewrite firstn_length; lia).
+    destruct (skipn L Q') as [|x rest] eqn:Es; [apply (f_equal (@length N)) in Es; rewrite skipn_length in Es; cbn in Es; lia|].
+    rewrite proj_app by (rewrite HL1; reflexivity). rewrite (IH Hwf (firstn L Q') HL1).
+    rewrite app_length. cbn [length]. rewrite Nat.add_1_r, seq_S, map_app. cbn [map Nat.add]. f_equal.
+    + apply map_ext_in. intros k Hk. apply in_seq in Hk.
+      assert (Hcol : colof g0 (segs ++ [sg]) k = colof g0 segs k).
+      { unfold colof. rewrite firstn_app. replace (k - length segs) with 0 by lia. cbn [firstn]. rewrite app_nil_r. reflexivity. }
+      rewrite Hcol. rewrite app_nth1 by (rewrite HL1; apply colof_lt; lia). reflexivity.
+    + unfold proj. cbn [combine filter fst]. destruct (N.eqb_spec (fst sg) 45); [contradiction|]. cbn [negb map snd]. f_equal.
+      * unfold colof. rewrite firstn_app, firstn_all, Nat.sub_diag. cbn [firstn]. rewrite app_nil_r.
+        assert (EL : g0 + length (flat_segs segs) = L) by (unfold L; rewrite flat_length; reflexivity).
+        rewrite EL. rewrite app_nth2 by (rewrite HL1; lia). rewrite HL1, Nat.sub_diag. reflexivity.
+      * fold (proj (repeat 45%N (snd sg)) rest). apply proj_gaps.
+Qed.
+
+Lemma flatten_block_nth rows mx i : rows <> [] -> Forall (fun r => length r = mx) rows -> i < mx ->
+  nth i (flatten_block rows) 0%N = nuc_from_site (map (fun r => nth i r 0%N) rows).
+Proof.
+  intros Hne Hl Hi. unfold flatten_block. destruct rows as [|r0 rest] eqn:Er; [contradiction|]. rewrite <- Er in *.
+  assert (Hr0 : length r0 = mx) by (rewrite Forall_forall in Hl; apply Hl; rewrite Er; left; reflexivity). rewrite Hr0.
+  rewrite (nth_indep _ 0%N (nuc_from_site [])) by (rewrite map_length, transpose_length; exact Hi).
+  rewrite map_nth, transpose_nth by assumption. reflexivity.
+Qed.
+Lemma map_nth_eq {A B C} (f : A -> C) (g : B -> C) (l : list A) (l' : list B) d d' :
+  length l = length l' -> (forall j, j < length l -> f (nth j l d) = g (nth j l' d')) -> map f l = map g l'.
+Proof.
+  revert l'. induction l as [|a t IH]; intros [|b t'] Hl H; try discriminate; [reflexivity|]. cbn [map]. f_equal.
+  - apply (H 0). cbn. lia.
+  - apply IH; [cbn in Hl; lia|]. intros j Hj. apply (H (S j)). cbn. lia.
+Qed.
+
+Lemma nth_repeat_lt {A} (a d : A) n i : i < n -> nth i (repeat a n) d = a.
+Proof. revert i; induction n as [|n IH]; intros i H; [lia|]. destruct i; [reflexivity|]. cbn. apply IH. lia. Qed.
+Lemma wf_firstn m S : wf_segs S -> wf_segs (firstn m S).
+Proof. unfold wf_segs. intros H. apply Forall_forall. intros x Hx. rewrite Forall_forall in H. apply H. eapply firstn_In_sub; eauto. Qed.
+(* one row of the block, read at the column of the k-th base of the longest row *)
+Lemma row_col g0 S m q k : wf_segs S -> m <= length S -> length q = length (flat g0 (firstn m S)) -> k < length S ->
+  nth (colof g0 S k) (pad_to (length (flat g0 S)) q) 0%N = nth k (proj (flat g0 (firstn m S)) q) 42%N.
+Proof.
+  intros Hwf Hm Hq Hk. pose proof (wf_firstn m S Hwf) as Hwfm.
+  assert (Lm : length (firstn m S) = m) by (rewrite firstn_length; lia).
+  destruct (Nat.lt_ge_cases k m) as [Hlt|Hge].
+  - rewrite <- (colof_firstn g0 S m k) by lia. unfold pad_to.
+    rewrite app_nth1 by (rewrite Hq; apply colof_lt; lia).
+    rewrite (proj_flat_cols g0 (firstn m S) Hwfm q Hq), Lm.
+    rewrite (nth_indep _ 42%N (nth (colof g0 (firstn m S) 0) q 0%N)) by (rewrite map_length, seq_length; exact Hlt).
+    rewrite (map_nth (fun k0 => nth (colof g0 (firstn m S) k0) q 0%N) (seq 0 m) 0 k), seq_nth by exact Hlt. reflexivity.
+  - rewrite (nth_overflow (proj _ _)) by (rewrite (proj_length _ q Hq), (degap_flat g0 _ Hwfm), map_length, firstn_length; lia).
+    assert (Hcol : length q <= colof g0 S k).
+    { rewrite Hq, flat_length. unfold colof. rewrite <- (firstn_skipn m (firstn k S)), flat_segs_app, app_length, firstn_firstn, Nat.min_l by lia. lia. }
+    unfold pad_to. rewrite app_nth2 by exact Hcol. apply nth_repeat_lt. pose proof (colof_lt g0 S k Hk). lia.
+Qed.
+Lemma cell_of_record rc row k : walk (s_cigar rc) 0 (s_seq rc) = Some row ->
+  cell_byte (aligned (s_cigar rc) 0 (s_pos rc) (s_seq rc) k) = nth k (map cell_byte (repeat Star (s_pos rc) ++ row)) 42%N.
+Proof.
+  intros Hw. rewrite <- (walk_cell _ _ _ _ Hw (s_pos rc) k). change 42%N with (cell_byte Star). rewrite map_nth. f_equal.
+  unfold cellat. destruct (Nat.ltb_spec k (s_pos rc)).
+  - rewrite app_nth1 by (rewrite repeat_length; lia). rewrite nth_repeat_cell. destruct (k <? s_pos rc); reflexivity.
+  - rewrite app_nth2 by (rewrite repeat_length; lia). rewrite repeat_length. reflexivity.
+Qed.
+Lemma all_some_of {A B} (f : A -> option B) l : (forall x, In x l -> exists y, f x = Some y) -> exists ys, all_some (map f l) = Some ys.
+Proof.
+  induction l as [|a t IH]; intros H; [exists []; reflexivity|]. destruct (H a (or_introl eq_refl)) as [y Hy].
+  destruct (IH (fun x Hx => H x (or_intror Hx))) as [ys Hys]. exists (y :: ys). cbn [map all_some]. rewrite Hy, Hys. reflexivity.
+Qed.
+Lemma grow_length_le ref I a b : a <= b -> length (grow ref I a) <= length (grow ref I b).
+Proof. intros H. replace b with (a + (b - a)) by lia. rewrite grow_app, app_length. lia. Qed.
+Lemma gsegs_firstn ref I a b : a <= b -> firstn a (gsegs ref I 0 b) = gsegs ref I 0 a.
+Proof.
+  intros H. replace b with (a + (b - a)) by lia. rewrite gsegs_app, firstn_app, gsegs_length, Nat.sub_diag. cbn [firstn].
+  rewrite app_nil_r. apply firstn_all2. rewrite gsegs_length. lia.
+Qed.
+
+Theorem pairk_proj_eq_toma_pad ref block R Q : block <> [] -> ~ In 45%N ref -> Forall (fun c => (42 <= c)%N) ref ->
+  block_to_seq_pair ref block = Some (R, Q) ->
+  exists raw, seq_from_block (length ref) block = Some raw /\ proj R Q = fasta_seq true false 0 0 raw.
+Proof.
+  intros Hne Hng Hge H. destruct block as [|rc0 rest]; [contradiction|]. clear Hne.
+  destruct (pairk_struct ref rc0 rest R Q Hng Hge H) as (pairs & rows & js & mx & Ea & Hrl & Hrows & Hjs & HEr & -> & Hmx & -> & Hst & HQl).
+  set (block := rc0 :: rest) in *. set (n := length block) in *. set (Itot := Iof (block_insertions block)) in *.
+  set (Ej := rec_E (nth js block rc0)) in *. set (S := gsegs ref Itot 0 Ej).
+  assert (HwfS : wf_segs S) by (apply gsegs_wf; [exact Hng|lia]).
+  assert (HlS : length S = Ej) by apply gsegs_length.
+  destruct (map_eq_nth (fun rc => one_line_plus_ref true rc ref) (@Some (list N * list N)) block pairs rc0 dpair Ea) as [Hpl Hrec].
+  fold n in Hpl, Hrec.
+  (* per record: the cells, and the row's projection *)
+  assert (Hper : forall j, j < n -> exists row, walk (s_cigar (nth j block rc0)) 0 (s_seq (nth j block rc0)) = Some row /\
+             proj (fst (nth j rows dpair)) (snd (nth j rows dpair)) = map cell_byte (repeat Star (s_pos (nth j block rc0)) ++ row) /\
+             s_pos (nth j block rc0) + length row = rec_E (nth j block rc0)).
+  { intros j Hj. specialize (Hrec j Hj). destruct (nth j pairs dpair) as [qr rr] eqn:Ep.
+    destruct (one_line_true_proj _ _ _ _ Hng Hrec) as (row & Hw & Hp & Hlen). exists row. split; [exact Hw|]. split; [|exact Hlen].
+    destruct (Hrows j Hj) as (_ & _ & Hpj & _). rewrite Hpj, Ep. exact Hp. }
+  (* the toMultiAlign side exists *)
+  assert (Hraw : exists raw, seq_from_block (length ref) block = Some raw).
+  { unfold seq_from_block. destruct (all_some_of (fun r => one_line (s_pos r) (s_cigar r) (s_seq r) (length ref)) block) as [ys ->]; [|eexists; reflexivity].
+    intros rc Hin. apply (In_nth _ _ rc0) in Hin. destruct Hin as (j & Hj & <-). destruct (Hper j Hj) as (row & Hw & _ & Hlen).
+    unfold one_line. rewrite Hw. destruct (Hrows j Hj) as (_ & _ & _ & HEj). fold Ej in HEj.
+    destruct (Nat.leb_spec (length (repeat Star (s_pos (nth j block rc0)) ++ row)) (length ref)) as [|Hgt]; [eexists; reflexivity|].
+    rewrite app_length, repeat_length in Hgt. lia. }
+  destruct Hraw as [raw Hraw]. exists raw. split; [exact Hraw|].
+  rewrite (seq_from_block_spec (length ref) block raw ltac:(discriminate) Hraw). unfold fasta_seq, swap_pad.
+  rewrite proj_map. f_equal.
+  set (Qf := flatten_block (map (fun rq : list N * list N => pad_to mx (snd rq)) rows)) in *.
+  assert (HR : length (grow ref Itot Ej) = length Qf) by (rewrite HQl; symmetry; exact Hmx).
+  rewrite proj_app by exact HR.
+  rewrite (proj_nogap (skipn Ej ref)) by (try (intros Hin; apply Hng; eapply skipn_In_sub; eauto); rewrite repeat_length, skipn_length; reflexivity).
+  unfold spec_raw. replace (length ref) with (Ej + (length ref - Ej)) at 2 by lia. rewrite seq_app, map_app. cbn [Nat.add]. f_equal.
+  - (* the base columns *)
+    unfold grow. fold S. rewrite (proj_flat_cols (Itot 0) S HwfS Qf) by (symmetry; exact HR). rewrite HlS.
+    apply map_ext_in. intros k Hk. apply in_seq in Hk.
+    assert (Hmxflat : length (flat (Itot 0) S) = mx) by (symmetry; exact Hmx).
+    assert (Hlens : Forall (fun r => length r = mx) (map (fun rq : list N * list N => pad_to mx (snd rq)) rows)).
+    { apply Forall_forall. intros r Hr. apply in_map_iff in Hr. destruct Hr as (rq & <- & Hin). apply (In_nth _ _ dpair) in Hin.
+      destruct Hin as (j & Hj & <-). rewrite Hrl in Hj. fold n in Hj. destruct (Hrows j Hj) as (G1 & G2 & _ & G4).
+      unfold pad_to. rewrite app_length, repeat_length, G2, G1. fold Itot. fold Ej in G4.
+      pose proof (grow_length_le ref Itot _ _ G4) as Hle. unfold grow in Hle at 2. fold S in Hle. lia. }
+    unfold Qf. rewrite (flatten_block_nth _ mx) ; [|intros E0; apply (f_equal (@length _)) in E0; rewrite map_length, Hrl in E0; discriminate|exact Hlens|].
+    2:{ rewrite <- Hmxflat. apply colof_lt. lia. }
+    rewrite map_map. f_equal. apply (map_nth_eq _ _ rows block dpair rc0); [exact Hrl|]. intros j Hj. rewrite Hrl in Hj. fold n in Hj.
+    destruct (Hrows j Hj) as (G1 & G2 & _ & G4). fold Itot in G1. fold Ej in G4. destruct (Hper j Hj) as (row & Hw & Hp & Hlen).
+    rewrite (cell_of_record _ row k Hw), <- Hp. rewrite <- Hmxflat.
+    assert (G1' : fst (nth j rows dpair) = flat (Itot 0) (firstn (rec_E (nth j block rc0)) S)).
+    { rewrite G1. unfold grow, S. rewrite gsegs_firstn by exact G4. reflexivity. }
+    rewrite G1'. apply row_col; [exact HwfS|lia| |lia]. rewrite G2, G1'. reflexivity.
+  - (* beyond the last aligned base of the block: nothing covers *)
+    apply (nth_ext _ _ 0%N 0%N); [rewrite map_length, seq_length, repeat_length; reflexivity|]. intros i Hi. rewrite repeat_length in Hi.
+    rewrite nth_repeat_lt by exact Hi.
+    rewrite (nth_indep _ 0%N (nuc_from_site (map (fun r => cell_byte (aligned (s_cigar r) 0 (s_pos r) (s_seq r) 0)) block)))
+      by (rewrite map_length, seq_length; exact Hi).
+    rewrite (map_nth (fun i0 => nuc_from_site (map (fun r => cell_byte (aligned (s_cigar r) 0 (s_pos r) (s_seq r) i0)) block)) (seq Ej (length ref - Ej)) 0 i).
+    rewrite seq_nth by exact Hi. symmetry. apply nfs_same; [| |discriminate].
+    + apply in_map_iff. exists rc0. split; [|left; reflexivity]. destruct (Hper 0 ltac:(unfold n, block; cbn; lia)) as (row & Hw & _ & Hlen).
+      change (nth 0 block rc0) with rc0 in Hw, Hlen. rewrite (cell_of_record rc0 row _ Hw). apply nth_overflow.
+      rewrite map_length, app_length, repeat_length. destruct (Hrows 0 ltac:(unfold n, block; cbn; lia)) as (_ & _ & _ & G4).
+      change (nth 0 block rc0) with rc0 in G4. fold Ej in G4. lia.
+    + intros y Hy. left. apply in_map_iff in Hy. destruct Hy as (rc & <- & Hin). apply (In_nth _ _ rc0) in Hin. destruct Hin as (j & Hj & <-).
+      destruct (Hper j Hj) as (row & Hw & _ & Hlen). rewrite (cell_of_record _ row _ Hw). apply nth_overflow.
+      rewrite map_length, app_length, repeat_length. destruct (Hrows j Hj) as (_ & _ & _ & G4). fold Ej in G4. lia.
+Qed.
+
+(* a query without insertions: the pair is the reference and the toMultiAlign --pad row *)
+Corollary pairk_no_insertions ref block R Q : block <> [] -> ~ In 45%N ref -> Forall (fun c => (42 <= c)%N) ref ->
+  block_insertions block = [] -> block_to_seq_pair ref block = Some (R, Q) ->
+  R = ref /\ exists raw, seq_from_block (length ref) block = Some raw /\ Q = fasta_seq true false 0 0 raw.
+Proof.
+  intros Hne Hng Hge Hni H. destruct (pairk_ref_row ref block R Q Hne Hng Hge H) as [HR HQ].
+  destruct (pairk_proj_eq_toma_pad ref block R Q Hne Hng Hge H) as (raw & Hraw & Hp).
+  rewrite Hni in HR. cbn [Iof] in HR. rewrite grow_zero in HR. subst R. split; [reflexivity|]. exists raw. split; [exact Hraw|].
+  rewrite <- Hp. symmetry. apply proj_nogap; [exact Hng|exact HQ].
 Qed.
